@@ -12,10 +12,19 @@ from vcommon import (VERIF, Inconclusive, build_fuzz, build_harness, build_harne
 # Engine H: generated histories against the reference model
 # ----------------------------------------------------------------------------------------------
 
+# VERIF_THOROUGH_SCALE (default 1) scales the case counts of the THOROUGH tier only: a smoke run of
+# every thorough code path (fuzz campaign, Miri sample, larger enumerations) in minutes instead of hours.
+SCALE = float(os.environ.get("VERIF_THOROUGH_SCALE", "1"))
+
+
+def sc(n):
+    return max(1, int(n * SCALE))
+
+
 HIST_BUDGET = {
     # tier: (shards per profile, cases per shard, max history length, watchdog seconds)
     "quick": (8, 1200, 120, 900),
-    "thorough": (16, 12000, 400, 7200),
+    "thorough": (16, sc(12000), 400, 7200),
 }
 
 HIST_ASSUMPTIONS = [
@@ -99,7 +108,7 @@ def hist_search(ctx, bins, features=(), traces=False, budget=None, prop_for_run=
         # that slot and dense indices beyond 16 bits take part in the history (fewer, shorter cases:
         # every step costs O(len))
         if ctx.prop in PREFILL_PROPS and name in ("chk", "rel") and "wide" not in features:
-            pcases, plen = (10, 30) if ctx.tier == "quick" else (80, 40)
+            pcases, plen = (10, 30) if ctx.tier == "quick" else (max(10, sc(80)), 40)
             for j, (world, arch) in enumerate([("WMix", 0), ("WSolo", 0)]):
                 s = 1000 + j
                 seed = ctx.sub_seed(name, s)
@@ -164,7 +173,7 @@ def fuzz_campaign(ctx, bins, cov, workers=16, runs=None):
     """Coverage-guided libFuzzer/ASan campaign over the same interpreter (thorough tiers).
     Artifacts are decoded to .ops files; one whose failure is tagged with the property (or that
     only crashes under the sanitizer) is a violation."""
-    runs = runs or (4000 if ctx.tier == "quick" else 25000)
+    runs = runs or (4000 if ctx.tier == "quick" else sc(25000))
     fbin = build_fuzz()
     work = os.path.join(VERIF, ".work", "%s-fuzz-%d" % (ctx.prop, os.getpid()))
     shutil.rmtree(work, ignore_errors=True)
@@ -221,7 +230,7 @@ def miri_sample(ctx, cov, prop_run=None, procs=8, cases=None, sub="hist"):
     violations inside gecs' unsafe code that neither ASan nor the model can see."""
     from vcommon import ENV, HARNESS
     prop_run = prop_run or ctx.prop
-    cases = cases or (6 if ctx.tier == "quick" else 30)
+    cases = cases or (6 if ctx.tier == "quick" else max(4, sc(30)))
     env = dict(ENV)
     env["MIRIFLAGS"] = "-Zmiri-disable-isolation -Zmiri-ignore-leaks"
     env["RUSTFLAGS"] = "--cfg gecs_verif"
@@ -415,7 +424,7 @@ def check_c14(ctx):
     if ctx.replay:
         write_evidence(ctx, "exploration", {"evaluations": len(files) + nfiles, "distinct_nontrivial": 2, "rule": "replay of saved inputs only", "samples": [open(ctx.replay).read()]}, HIST_ASSUMPTIONS)
         return
-    shards, cases = (8, 20000) if ctx.tier == "quick" else (16, 1000000)
+    shards, cases = (8, 20000) if ctx.tier == "quick" else (16, sc(1000000))
     work = os.path.join(VERIF, ".work", "C14-%d" % os.getpid())
     os.makedirs(work, exist_ok=True)
     jobs = []
@@ -456,7 +465,7 @@ def check_c14(ctx):
     finally:
         shutil.rmtree(work, ignore_errors=True)
     # history part: created handles carry their creator's ARCHETYPE_ID
-    hb = (4, 500, 120, 900) if ctx.tier == "quick" else (16, 5000, 400, 7200)
+    hb = (4, 500, 120, 900) if ctx.tier == "quick" else (16, sc(5000), 400, 7200)
     agg = hist_search(ctx, bins, budget=hb)
     cov = {
         "evaluations": total + agg["evaluations"],
@@ -485,7 +494,7 @@ def check_c03(ctx):
     if ctx.replay:
         write_evidence(ctx, "exploration", {"evaluations": nfiles, "distinct_nontrivial": 2, "rule": "replay of saved inputs only", "samples": [open(ctx.replay).read()]}, HIST_ASSUMPTIONS)
         return
-    budget = (5, 1200, 120, 1200) if ctx.tier == "quick" else (16, 12000, 400, 7200)
+    budget = (5, 1200, 120, 1200) if ctx.tier == "quick" else (16, sc(12000), 400, 7200)
     agg = hist_search(ctx, bins, budget=budget)
     cov = hist_coverage(ctx, agg, nfiles, rule_of("C03"), bins)
     cov["sanitizers"] = ["AddressSanitizer (nightly -Zsanitizer=address, release profile, debug assertions off) on the 'asan' build"]
@@ -519,7 +528,7 @@ def check_c10(ctx):
     if ctx.replay:
         write_evidence(ctx, "fault_enumeration", {"evaluations": nfiles, "distinct_nontrivial": 2, "rule": "replay of saved inputs only", "samples": [open(ctx.replay).read()]}, HIST_ASSUMPTIONS)
         return
-    shards, cases, maxlen, watchdog = (5, 100, 60, 1800) if ctx.tier == "quick" else (16, 1500, 120, 10800)
+    shards, cases, maxlen, watchdog = (5, 100, 60, 1800) if ctx.tier == "quick" else (16, sc(1500), 120, 10800)
     work = os.path.join(VERIF, ".work", "C10-%d" % os.getpid())
     os.makedirs(work, exist_ok=True)
     jobs = []
@@ -620,7 +629,7 @@ def check_c11(ctx):
         for v in range(8):
             base = os.path.join(work, "m-%s-%d" % (name, v))
             jobs.append((("matrix", name, v, 0), [b, "bmatrix", "--world", "WMix", "--variant", str(v), "--pairs", "64", "--out", base + ".json", "--fail-out", base + ".nest"]))
-        shards, cases = (4, 5000) if ctx.tier == "quick" else (8, 400000)
+        shards, cases = (4, 5000) if ctx.tier == "quick" else (8, sc(400000))
         for s in range(shards):
             base = os.path.join(work, "s-%s-%d" % (name, s))
             seed = ctx.sub_seed("bsearch", name, s)
@@ -694,10 +703,10 @@ PROG_ASSUMPTIONS = [
 
 M_BUDGET = {
     # prop: (quick shards, quick cases per shard, thorough shards, thorough cases, queries per case)
-    "C05": (16, 3000, 16, 40000, 4),
-    "C15": (16, 3000, 16, 40000, 1),
-    "C16": (16, 250, 16, 3000, 4),
-    "C18": (16, 600, 16, 8000, 4),
+    "C05": (16, 3000, 16, sc(40000), 4),
+    "C15": (16, 3000, 16, sc(40000), 1),
+    "C16": (16, 250, 16, sc(3000), 4),
+    "C18": (16, 600, 16, sc(8000), 4),
 }
 
 P_BUDGET = {
@@ -1025,7 +1034,7 @@ def check_c19(ctx):
     if ctx.replay:
         write_evidence(ctx, "exploration", {"evaluations": len(files) * len(bins), "distinct_nontrivial": 2, "rule": "replay of saved inputs on all 16 builds", "samples": [open(ctx.replay).read()]}, HIST_ASSUMPTIONS)
         return
-    shards, cases, maxlen = (2, 350, 100) if ctx.tier == "quick" else (8, 5000, 300)
+    shards, cases, maxlen = (2, 350, 100) if ctx.tier == "quick" else (8, sc(5000), 300)
     work = os.path.join(VERIF, ".work", "C19-%d" % os.getpid())
     os.makedirs(work, exist_ok=True)
     jobs = []
